@@ -82,6 +82,23 @@ func mkArch(a []string, i int) dependency.Arch {
 
 func init() {
 	ops["dparse"] = func(a []string) string { return showDres(dependency.Parse(arg(a, 0))) }
+	// dtwice text: Parse, Parse again, then UnmarshalControl - three answers for one text in one process
+	ops["dtwice"] = func(a []string) string {
+		one := func() string {
+			d, err := dependency.Parse(arg(a, 0))
+			if err != nil {
+				return "err"
+			}
+			return "ok:" + showDep(d)
+		}
+		r1, r2 := one(), one()
+		var u dependency.Dependency
+		r3 := "err"
+		if err := u.UnmarshalControl(arg(a, 0)); err == nil {
+			r3 = "ok:" + showDep(&u)
+		}
+		return r1 + " " + r2 + " " + r3
+	}
 	// dalias text: Parse, then the caller edits EVERYTHING in the value it got (it is the caller's), then the byte-identical
 	// text is parsed again - and once more through UnmarshalControl: both must be what the text denotes
 	ops["dalias"] = func(a []string) string {
